@@ -45,19 +45,19 @@ def _case(draw):
     t0 = draw(st.sampled_from([0.0, 1.0, -2.0, 10.0]))
     L = draw(st.sampled_from([1.0, 2.0, 0.5]))
     te_kind = draw(st.sampled_from(["none", "none", "interior", "with_ends", "unsorted", "repeated"]))
-    direction = 1.0 if te_kind != "none" else draw(st.sampled_from([1.0, 1.0, -1.0]))
+    direction = draw(st.sampled_from([1.0, 1.0, -1.0]))       # (backward spans visit their output times in decreasing order)
     tf = t0 + direction * L
     fr = sorted(set(draw(st.lists(st.sampled_from([0.1, 0.25, 0.4, 0.5, 0.75, 0.9]), min_size=1, max_size=5))))
     if te_kind == "none":
         t_eval = None
     elif te_kind == "interior":
-        t_eval = [t0 + f * L for f in fr]
+        t_eval = [t0 + f * (tf - t0) for f in fr]
     elif te_kind == "with_ends":
-        t_eval = [t0] + [t0 + f * L for f in fr] + [tf]
+        t_eval = [t0] + [t0 + f * (tf - t0) for f in fr] + [tf]
     elif te_kind == "unsorted":
-        t_eval = [t0 + f * L for f in reversed(fr)] + [t0 + 0.33 * L]
+        t_eval = [t0 + f * (tf - t0) for f in reversed(fr)] + [t0 + 0.33 * (tf - t0)]
     else:
-        t_eval = [t0 + f * L for f in fr] + [t0 + fr[0] * L, t0 + fr[-1] * L]
+        t_eval = [t0 + f * (tf - t0) for f in fr] + [t0 + fr[0] * (tf - t0), t0 + fr[-1] * (tf - t0)]
     method = draw(st.sampled_from(METHOD_KEYS))
     tol = draw(st.sampled_from([1e-4, 1e-6, 1e-8]))
     if method in ("AHE",):
@@ -204,6 +204,8 @@ def check(case):
             viols.append(V("columns_vs_system", "the columns of result.y are not the recorded states of result.ode_system", sig, **attrs))
     else:
         want = np.sort(np.asarray(case["t_eval"], dtype=np.float64))
+        if case["tf"] < case["t0"]:
+            want = want[::-1]           # in the order a backward integration meets them
         if len(t) != len(want) or np.any(np.abs(t - want) > 64 * eps * np.maximum(1.0, np.abs(want))):
             viols.append(V("t_eval_times", "t_eval {} requested, result.t = {}".format(want.tolist(), t.tolist()), sig, **attrs))
         elif not fixed:
@@ -228,7 +230,8 @@ def check(case):
         viols.append(V("dense_flag", "dense_output={} but result.sol is {}".format(case["dense"], "None" if res.sol is None else "set"), sig, **attrs))
     if case["event"] == "time":
         tc = case["t0"] + 0.6 * (case["tf"] - case["t0"])
-        reached = case["t_eval"] is None or max(case["t_eval"]) > tc + 1e-9
+        sg_ = 1.0 if case["tf"] > case["t0"] else -1.0
+        reached = case["t_eval"] is None or max(sg_ * np.asarray(case["t_eval"])) > sg_ * tc + 1e-9
         evs = list(res.t_events)
         if reached and (len(evs) != 1 or abs(float(evs[0].t) - tc) > 1e-9 * max(1.0, abs(tc))):
             viols.append(V("events", "time event at {!r}: result.t_events has {} records {}".format(tc, len(evs), [float(e.t) for e in evs][:4]), sig, **attrs))
@@ -262,7 +265,8 @@ def check(case):
             tt, yy = np.asarray(a.t), np.moveaxis(np.asarray(a.y), 0, -1)
         else:
             tl, yl = [], []
-            for tq in np.sort(np.asarray(case["t_eval"], dtype=np.float64)):
+            order_ = np.sort(np.asarray(case["t_eval"], dtype=np.float64))
+            for tq in (order_ if case["tf"] > case["t0"] else order_[::-1]):
                 a.integrate(t=tq, callback=cbs, events=evs)
                 tl.append(a[-1].t)
                 yl.append(a[-1].y)
